@@ -484,7 +484,22 @@ def rw(run, p, E, rt):
     run.ob('C10-RW', '%s::%s::text-encoding' % (w.rel, w.short), ok,
            'text references: writer open() encodings %s, reader open() encodings %s' % (txt_enc, rd_enc), fn=w,
            node=oc[0][0] if oc else None)
-    run.floor('C10-RW', 3, 3)
+    # the encoding the readers assume, per reference extension: what the writer produces (UTF-8 under a UTF-8 locale; the locale
+    # dependence itself is the recorded finding above) for every text extension; .pdf alone is read as iso-8859-1
+    ge = p.fn('tdda.referencetest.utils.get_encoding')
+    wrong = []
+    for name in ('r.txt', 'r.csv', 'r.json', 'r.html', 'r.svg', 'r.ps', 'r.eps', 'r.xml', 'r.md', 'r', 'r.TXT', 'dir.pdf/r.txt', 'r.pdf'):
+        try:
+            got = Interp(p).call(ge, [name])
+        except Unsupported as e:
+            raise AnalysisError('get_encoding is not evaluable: %s' % e)
+        want = 'iso-8859-1' if name.endswith('.pdf') else 'utf-8'
+        if got != want:
+            wrong.append((name, got))
+    run.ob('C10-RW', '%s::%s::reader-encoding' % (ge.rel, ge.short), not wrong,
+           'references are read as UTF-8 whatever their extension (.pdf aside)%s' % (
+               '' if not wrong else ' - not %s, read as %s: a regenerated reference holding non-ASCII text no longer compares equal' % wrong[0]), fn=ge)
+    run.floor('C10-RW', 4, 4)
 
 
 def _mode_env(f):
